@@ -185,7 +185,9 @@ class World:
                 if st != "none":
                     self.place(s, x, st)
 
-    TAMPER_PATTERNS = ["append", "truncate", "same_len", "other_len", "rename"]
+    # (the last two leave other writable modes than the store's own: 0o600 is what mkstemp + rename gives, 0o664 a
+    # group-writable edit; "not write-protected" is all the statement asks)
+    TAMPER_PATTERNS = ["append", "truncate", "same_len", "other_len", "rename", "rename600", "append664"]
 
     def tamper(self, s: str, x: str, pat: str = "append"):
         """Make the bytes of object x in store s mismatch its name the way a user could: after
@@ -196,6 +198,8 @@ class World:
         os.chmod(p, 0o644)
         with open(p, "rb") as fh:
             data = fh.read()
+        mode = {"rename600": 0o600, "append664": 0o664}.get(pat)
+        pat = {"rename600": "rename", "append664": "append"}.get(pat, pat)
         if not data and pat in ("truncate", "same_len", "rename"):
             pat = "append"
         if pat == "append":
@@ -221,6 +225,8 @@ class World:
                 fh.write(new)
                 fh.truncate(len(new))
             os.utime(p, ns=(mt, mt))
+        if mode is not None:
+            os.chmod(p, mode)
 
     def ext_delete(self, s: str, x: str):
         p = self.obj_path(s, x)
